@@ -14,6 +14,8 @@ use crate::formatting::buffer::Buffer;
 use crate::formatting::VHDLFormatter;
 use crate::syntax::Kind;
 use crate::{indented, HasTokenSpan, TokenAccess, TokenId, TokenSpan};
+use itertools::Itertools;
+use std::iter;
 use vhdl_lang::ast::token_range::WithTokenSpan;
 use vhdl_lang::ast::{
     AliasDeclaration, Attribute, AttributeDeclaration, AttributeSpecification, Declaration,
@@ -31,11 +33,36 @@ impl VHDLFormatter<'_> {
             return;
         }
         buffer.line_break();
-        for (i, item) in declarations.iter().enumerate() {
-            self.format_declaration(item, buffer);
-            if i < declarations.len() - 1 {
+        let mut remaining = declarations;
+        while let Some((item, rest)) = remaining.split_first() {
+            // An attribute specification with multiple entity names is represented
+            // by one declaration per entity name. All of them cover the same tokens
+            // and must be written as the single declaration that they originate from.
+            let entity_names = iter::once(item)
+                .chain(rest)
+                .map_while(|other| match &other.item {
+                    Declaration::Attribute(Attribute::Specification(spec))
+                        if other.span == item.span =>
+                    {
+                        Some(&spec.entity_name)
+                    }
+                    _ => None,
+                })
+                .collect_vec();
+            let rest = match &item.item {
+                Declaration::Attribute(Attribute::Specification(spec)) => {
+                    self.format_attribute_specification_of(spec, &entity_names, item.span, buffer);
+                    &rest[entity_names.len() - 1..]
+                }
+                _ => {
+                    self.format_declaration(item, buffer);
+                    rest
+                }
+            };
+            if !rest.is_empty() {
                 self.line_break_preserve_whitespace(item.get_end_token(), buffer);
             }
+            remaining = rest;
         }
     }
 
@@ -439,21 +466,42 @@ impl VHDLFormatter<'_> {
         span: TokenSpan,
         buffer: &mut Buffer,
     ) {
+        self.format_attribute_specification_of(attribute, &[&attribute.entity_name], span, buffer)
+    }
+
+    /// Formats an attribute specification for the given list of entity names,
+    /// i.e., `attribute foo of <entity_names>: signal is bar;`
+    fn format_attribute_specification_of(
+        &self,
+        attribute: &AttributeSpecification,
+        entity_names: &[&EntityName],
+        span: TokenSpan,
+        buffer: &mut Buffer,
+    ) {
         // attribute <name> of
         self.format_token_span(
             TokenSpan::new(span.start_token, attribute.ident.item.token + 1),
             buffer,
         );
         buffer.push_whitespace();
-        match &attribute.entity_name {
-            EntityName::Name(name) => {
-                self.format_token_id(name.designator.token, buffer);
-                if let Some(signature) = &name.signature {
-                    self.format_signature(signature, buffer);
+        for (i, entity_name) in entity_names.iter().enumerate() {
+            match entity_name {
+                EntityName::Name(name) => {
+                    self.format_token_id(name.designator.token, buffer);
+                    let mut end_token = name.designator.token;
+                    if let Some(signature) = &name.signature {
+                        self.format_signature(signature, buffer);
+                        end_token = signature.span.end_token;
+                    }
+                    if i < entity_names.len() - 1 {
+                        // ,
+                        self.format_token_id(end_token + 1, buffer);
+                        buffer.push_whitespace();
+                    }
                 }
-            }
-            EntityName::All | EntityName::Others => {
-                self.format_token_id(attribute.ident.item.token + 2, buffer)
+                EntityName::All | EntityName::Others => {
+                    self.format_token_id(attribute.ident.item.token + 2, buffer)
+                }
             }
         }
         // : <entity_class> is
@@ -771,6 +819,30 @@ component foo is
         foo: natural
     );
 end component;",
+        );
+    }
+
+    fn check_declarations(input: &str) {
+        check_formatted(
+            input,
+            // Declarations are preceded by a line break
+            &format!("\n{input}"),
+            |code| code.declarative_part(),
+            |formatter, ast, buffer| formatter.format_declarations(ast, buffer),
+        );
+    }
+
+    #[test]
+    fn check_attribute_specification_with_multiple_entity_names() {
+        check_declarations("attribute attr_name of foo, bar: signal is 0 + 1;");
+        check_declarations(
+            "\
+signal foo, bar: bit;
+attribute attr_name of foo, bar, baz: signal is 0 + 1;
+
+attribute attr_name of foo: signal is 0 + 1;
+attribute attr_name of \"+\", foo[return natural], bar[natural]: function is 0 + 1;
+attribute attr_name of foo: signal is 0 + 1;",
         );
     }
 
